@@ -38,9 +38,10 @@ def handle (sess : Sess) (rep : Report) (ln : Nat) (toks : List String) (obs : S
     | some base, some mx, some n, some got =>
       let rep := rep.bump "pb.backoff"
       let mine := backoffF53 base.toNat mx.toNat n
-      let rep := if base ≥ 0 ∧ mx ≥ 0 ∧ (mine : Int) != got then diverge rep ln s!"{mine}" obs else rep
+      -- a float beyond the int64 range converts in an implementation-specific way in Go: not compared
+      let rep := if base ≥ 0 ∧ mx ≥ 0 ∧ mine < 2^63 ∧ (mine : Int) != got then diverge rep ln s!"{mine}" obs else rep
       -- C18 monitor: within [base, max] for 0 ≤ base ≤ max ≤ 2^53, non-decreasing in the retry count
-      let inScope := 0 ≤ base && base ≤ mx && mx ≤ 2^53
+      let inScope := base ≤ mx
       let rep := if inScope && got < base then fail rep ln "backoff_ge_base" else rep
       let rep := if inScope && got > mx then fail rep ln "backoff_le_max" else rep
       let rep := match sess.lastBackoff with
@@ -59,6 +60,11 @@ def handle (sess : Sess) (rep : Report) (ln : Nat) (toks : List String) (obs : S
       let rep := rep.bump (match r with | some _ => "pb.t4t7_ok" | none => "pb.t4t7_err")
       let rep := if (mdGet h key).length > 0 && (mdGet t key).length > 0 then rep.bump "pb.t4t7_header_and_trailer" else rep
       let rep := if obs == "PANIC" then fail rep ln "t4t7_total" else rep
+      -- the value is the first entry's duration, exactly (no int64 wrap-around)
+      let rep := match parseT4T7Exact key pfx h t with
+        | some ex => if obs == s!"ok {ex}" then rep
+                     else { rep.msg s!"MONITOR property=C18 clause=t4t7_value_exact line={ln} ms={ex / 1000000}" with monitorFails := rep.monitorFails + 1 }
+        | none => if obs == "err" then rep else fail rep ln "t4t7_error_cases"
       (sess, if mine == obs then rep else diverge rep ln mine obs)
     | _, _ => (sess, rep.msg s!"BAD line={ln}")
   | some "ptype" =>
